@@ -116,6 +116,11 @@ def run(out):
     # ---- grammar-level differential: tokenizer + parser + convert() of the specification against abbreviation.parse()
     gq = dict(NameFr={"x", "li$", "h$$@3"}, ModFr={".c$@-", "{t$@^}", "[n=$$@-5]", "#i$@^^"}, RepFr={"*1", "*2", "*3", "*"}, OpFr={">", "+", "^"},
               MaxGroups=1, MaxMods=1)
+    # without a limit X*N makes exactly N copies also for large N (and large products of nested counts)
+    grammar.differential(out, 'grammar-large-count', dict(NameFr={"x"}, ModFr={".c$"}, RepFr={"*1001"}, OpFr=set(), MaxGroups=0, MaxMods=1, MaxFrag=2 if quick else 3),
+                         ('d', 'name', 'attrs'), 'copies (node tree of abbreviation.parse)', tree_only=True)
+    grammar.differential(out, 'grammar-large-product', dict(NameFr={"x"}, ModFr=set(), RepFr={"*40", "*30"}, OpFr={">"}, MaxGroups=0, MaxMods=0, MaxFrag=5),
+                         ('d', 'name'), 'copies (node tree of abbreviation.parse)', tree_only=True)
     for limit in ((None, 3, 1) if quick else (None, 1, 2, 3, 5)):
         grammar.differential(out, 'grammar-numbering-maxRepeat-%s' % limit, dict(gq, MaxFrag=5 if quick else 6), ('d', 'name', 'text', 'attrs'),
                              'numbering (node tree of abbreviation.parse)', limit=limit)
